@@ -59,13 +59,13 @@ pub fn reply_method(class: &AMQPClass) -> String {
     let (c, m) = class_ids(class);
     let fields: Vec<String> = match class {
         AMQPClass::Queue(Queue::DeclareOk(d)) => vec![
-            hex(d.queue.as_bytes()),
-            d.message_count.to_string(),
-            d.consumer_count.to_string(),
+            format!("x:{}", hex(d.queue.as_bytes())),
+            format!("n:{}", d.message_count),
+            format!("n:{}", d.consumer_count),
         ],
-        AMQPClass::Queue(Queue::PurgeOk(d)) => vec![d.message_count.to_string()],
-        AMQPClass::Queue(Queue::DeleteOk(d)) => vec![d.message_count.to_string()],
-        AMQPClass::Basic(Basic::CancelOk(d)) => vec![hex(d.consumer_tag.as_bytes())],
+        AMQPClass::Queue(Queue::PurgeOk(d)) => vec![format!("n:{}", d.message_count)],
+        AMQPClass::Queue(Queue::DeleteOk(d)) => vec![format!("n:{}", d.message_count)],
+        AMQPClass::Basic(Basic::CancelOk(d)) => vec![format!("x:{}", hex(d.consumer_tag.as_bytes()))],
         _ => vec![],
     };
     let mut s = format!("method {} {}", c, m);
